@@ -3,6 +3,7 @@
   `wrapArgs` is `args.mapM wrapStep` (`wrapArgs_eq`): one independent step per argument.
 -/
 import BklProofs.Lemmas.Files
+import BklProofs.Lemmas.C20Args
 namespace Bkl
 
 /-- The rewritten argv has the same length, and position by position every result is either
@@ -198,5 +199,215 @@ theorem C20_name :
     (∀ cs : List Char, wrappedName (String.ofList (cs ++ ['b'])) = some (String.ofList cs)) ∧
     (∀ s : String, s.toList.getLast? ≠ some 'b' → wrappedName s = none) :=
   ⟨by decide, by decide, by decide, by decide, wrappedName_snoc, wrappedName_none⟩
+
+/-! ## argument-wise rewriting, the named extension, the failure classes
+   (helpers: BklProofs/Lemmas/C20Args.lean) -/
+
+/-- **C20_args_independent** — the rewriting is argument-wise.  `wrapArgs` distributes over `++`
+    (first conjunct), so what replaces an argument depends on that argument alone: every
+    position of the result is the (only) result of wrapping that argument by itself, with a
+    FRESH parser — no document of an earlier file argument leaks into a later one — and
+    conversely the single results assemble to the result of the list.  In particular the same
+    argument gets the same replacement wherever it occurs (`[a, a]`), the second component of
+    `[a, b]` is the only component of `[b]`, and whether/how a later argument fails does not
+    depend on the earlier ones. -/
+theorem C20_args_independent (fs : FS) (cwd : Comps) (env : Vars) :
+    (∀ as bs : List String, wrapArgs fs cwd env (as ++ bs) =
+      (do let x ← wrapArgs fs cwd env as; let y ← wrapArgs fs cwd env bs; pure (x ++ y))) ∧
+    (∀ (args : List String) (ws : List WArg), wrapArgs fs cwd env args = .ok ws →
+      ∀ (i : Nat) (a : String), args[i]? = some a →
+        ∃ w, ws[i]? = some w ∧ wrapArgs fs cwd env [a] = .ok [w]) ∧
+    (∀ (args : List String) (ws : List WArg), args.length = ws.length →
+      (∀ (i : Nat) (a : String) (w : WArg), args[i]? = some a → ws[i]? = some w →
+        wrapArgs fs cwd env [a] = .ok [w]) → wrapArgs fs cwd env args = .ok ws) ∧
+    (∀ (args : List String) (ws : List WArg), wrapArgs fs cwd env args = .ok ws →
+      ∀ (i j : Nat) (a : String), args[i]? = some a → args[j]? = some a → ws[i]? = ws[j]?) ∧
+    (∀ (a : String) (ws : List WArg), wrapArgs fs cwd env [a, a] = .ok ws →
+      ∃ w, ws = [w, w] ∧ wrapArgs fs cwd env [a] = .ok [w]) ∧
+    (∀ (a b : String) (w₁ w₂ : WArg), wrapArgs fs cwd env [a, b] = .ok [w₁, w₂] →
+      wrapArgs fs cwd env [a] = .ok [w₁] ∧ wrapArgs fs cwd env [b] = .ok [w₂]) ∧
+    (∀ (a b : String) (w : WArg) (e : Err), wrapArgs fs cwd env [a] = .ok [w] →
+      (wrapArgs fs cwd env [a, b] = .error e ↔ wrapArgs fs cwd env [b] = .error e)) := by
+  have hpt := wa_wrapArgs_pointwise fs cwd env
+  have hsame : ∀ (args : List String) (ws : List WArg), wrapArgs fs cwd env args = .ok ws →
+      ∀ (i j : Nat) (a : String), args[i]? = some a → args[j]? = some a → ws[i]? = ws[j]? := by
+    intro args ws h i j a hi hj
+    obtain ⟨w, hw, h1⟩ := hpt args ws h i a hi
+    obtain ⟨w', hw', h2⟩ := hpt args ws h j a hj
+    rw [h1] at h2
+    cases h2
+    rw [hw, hw']
+  refine ⟨wa_wrapArgs_append fs cwd env, hpt, wa_wrapArgs_of_singles fs cwd env, hsame, ?_, ?_, ?_⟩
+  · intro a ws h
+    have hlen := (C20_length_order fs cwd env _ ws h).1
+    obtain ⟨w, hw, h1⟩ := hpt _ ws h 0 a rfl
+    have h01 := hsame _ ws h 0 1 a rfl rfl
+    match ws, hlen, hw, h01 with
+    | [x, y], _, hw, h01 =>
+      simp only [List.getElem?_cons_zero, Option.some.injEq] at hw
+      simp only [List.getElem?_cons_zero, List.getElem?_cons_succ, Option.some.injEq] at h01
+      subst hw; subst h01
+      exact ⟨x, rfl, h1⟩
+  · intro a b w₁ w₂ h
+    obtain ⟨w, hw, h1⟩ := hpt _ _ h 0 a rfl
+    obtain ⟨w', hw', h2⟩ := hpt _ _ h 1 b rfl
+    simp only [List.getElem?_cons_zero, Option.some.injEq] at hw
+    simp only [List.getElem?_cons_succ, List.getElem?_cons_zero, Option.some.injEq] at hw'
+    subst hw; subst hw'
+    exact ⟨h1, h2⟩
+  · intro a b w e h
+    have := wa_wrapArgs_append fs cwd env [a] [b]
+    rw [List.singleton_append] at this
+    rw [this, h]
+    cases wrapArgs fs cwd env [b] with
+    | error e' => exact Iff.rfl
+    | ok y => constructor <;> intro h' <;> cases h'
+
+/-- non-vacuity: `a.json a.json` — the same replacement twice; `a.json a.yaml` — the second
+    component is what `a.yaml` alone gives (each evaluated from scratch: one document, not two) -/
+example : wrapArgs chainFS ["w"] [] ["a.json", "a.json"] =
+      .ok [.evaluated "json" [.map [("x", .int 1)]], .evaluated "json" [.map [("x", .int 1)]]] ∧
+    wrapArgs chainFS ["w"] [] ["a.json", "a.yaml"] =
+      .ok [.evaluated "json" [.map [("x", .int 1)]], .evaluated "yaml" [.map [("x", .int 1)]]] ∧
+    wrapArgs chainFS ["w"] [] ["a.yaml"] = .ok [.evaluated "yaml" [.map [("x", .int 1)]]] := by
+  have hj := wa_chainFS_step_a_ext "json" (by decide)
+  have hy := wa_chainFS_step_a_ext "yaml" (by decide)
+  rw [show "a" ++ "." ++ "json" = "a.json" by decide] at hj
+  rw [show "a" ++ "." ++ "yaml" = "a.yaml" by decide] at hy
+  refine ⟨?_, ?_, ?_⟩
+  · rw [wrapArgs_eq, mapM_R_cons, mapM_R_cons, mapM_R_nil, hj]
+  · rw [wrapArgs_eq, mapM_R_cons, mapM_R_cons, mapM_R_nil, hj, hy]
+  · rw [wrapArgs_eq, mapM_R_cons, mapM_R_nil, hy]
+
+/-- **C20_format_is_named_extension** — for an argument `x.f` (`f` non-empty, without `.` and
+    `/`: e.g. every supported extension) that `FileMatch` resolves, to a real file
+    `…/stem.e` with ANY supported extension `e`, the format handed on is exactly the NAMED
+    extension `f` (first conjunct), and that is the format of the `evaluated` replacement in the
+    rewritten argv (second).  Two arguments that resolve to the SAME real file get each its own
+    format — nothing is remembered per real path — and the same documents (third). -/
+theorem C20_format_is_named_extension (fs : FS) (cwd : Comps) (env : Vars) :
+    (∀ (x f : String), '.' ∉ f.toList → '/' ∉ f.toList → f ≠ "" →
+      ∀ (real : Comps) (g : String), fileMatch fs cwd (x ++ "." ++ f) = .ok (real, g) →
+        g = f ∧ f ∈ supportedExts ∧
+        ∃ e ∈ supportedExts, ∃ (d : Comps) (t : String),
+          absPath cwd (x ++ "." ++ f) = d ++ [t ++ "." ++ f] ∧
+          real = d ++ [stemOf (t ++ "." ++ f) ++ "." ++ e] ∧ fs.exists real = true) ∧
+    (∀ (x f : String), '.' ∉ f.toList → '/' ∉ f.toList → f ≠ "" →
+      ∀ (real : Comps) (g : String), fileMatch fs cwd (x ++ "." ++ f) = .ok (real, g) →
+      ∀ (args : List String) (ws : List WArg), wrapArgs fs cwd env args = .ok ws →
+      ∀ (i : Nat), args[i]? = some (x ++ "." ++ f) →
+        ∃ outs, ws[i]? = some (.evaluated f outs)) ∧
+    (∀ (a₁ a₂ : String) (real : Comps) (f₁ f₂ : String),
+      fileMatch fs cwd a₁ = .ok (real, f₁) → fileMatch fs cwd a₂ = .ok (real, f₂) →
+      ∀ (ws : List WArg), wrapArgs fs cwd env [a₁, a₂] = .ok ws →
+        ∃ outs, ws = [.evaluated f₁ outs, .evaluated f₂ outs]) := by
+  have hfmt : ∀ (x f : String), '.' ∉ f.toList → '/' ∉ f.toList → f ≠ "" →
+      ∀ (real : Comps) (g : String), fileMatch fs cwd (x ++ "." ++ f) = .ok (real, g) → g = f := by
+    intro x f h1 h2 h3 real g hm
+    rw [(wa_fileMatch_ok hm).1, wa_extOf_arg cwd x f h1 h2 h3]
+  refine ⟨?_, ?_, ?_⟩
+  · intro x f h1 h2 h3 real g hm
+    have hg := hfmt x f h1 h2 h3 real g hm
+    obtain ⟨-, hsup, hfind⟩ := wa_fileMatch_ok hm
+    obtain ⟨d, t, habs, -, -⟩ := wa_absPath_dot cwd x f h1 h2 h3
+    obtain ⟨e, he, hreal, hex⟩ := findFile_some fs _ _ real hfind
+    rw [habs, baseOf_snoc, dirOf_snoc] at hreal
+    exact ⟨hg, hg ▸ List.contains_iff_mem.1 hsup, e, he, d, String.ofList t, habs, hreal, hex⟩
+  · intro x f h1 h2 h3 real g hm args ws h i ha
+    obtain ⟨-, st, outs, -, -, hw⟩ := C20_file_args fs cwd env args ws h i _ ha real g hm
+    exact ⟨outs, by rw [hw, hfmt x f h1 h2 h3 real g hm]⟩
+  · intro a₁ a₂ real f₁ f₂ hm₁ hm₂ ws h
+    have hlen := (C20_length_order fs cwd env _ ws h).1
+    obtain ⟨-, st, outs, hst, ho, hw⟩ := C20_file_args fs cwd env _ ws h 0 a₁ rfl real f₁ hm₁
+    obtain ⟨-, st', outs', hst', ho', hw'⟩ := C20_file_args fs cwd env _ ws h 1 a₂ rfl real f₂ hm₂
+    rw [hst] at hst'
+    cases hst'
+    rw [ho] at ho'
+    cases ho'
+    match ws, hlen, hw, hw' with
+    | [x, y], _, hw, hw' =>
+      simp only [List.getElem?_cons_zero, Option.some.injEq] at hw
+      simp only [List.getElem?_cons_succ, List.getElem?_cons_zero, Option.some.injEq] at hw'
+      exact ⟨outs, by rw [hw, hw']⟩
+
+/-- non-vacuity: `a.json`, `a.toml` and `a.yaml` all resolve to the real file `/w/a.yaml`; each
+    is evaluated in ITS OWN named format -/
+example : fileMatch chainFS ["w"] ("a" ++ "." ++ "json") = .ok (["w", "a.yaml"], "json") ∧
+    fileMatch chainFS ["w"] ("a" ++ "." ++ "toml") = .ok (["w", "a.yaml"], "toml") ∧
+    '.' ∉ "json".toList ∧ '/' ∉ "json".toList ∧ "json" ≠ "" ∧
+    wrapArgs chainFS ["w"] [] ["a.json", "a.toml", "a.yaml"] =
+      .ok [.evaluated "json" [.map [("x", .int 1)]], .evaluated "toml" [.map [("x", .int 1)]],
+        .evaluated "yaml" [.map [("x", .int 1)]]] := by
+  have hj := wa_chainFS_step_a_ext "json" (by decide)
+  have ht := wa_chainFS_step_a_ext "toml" (by decide)
+  have hy := wa_chainFS_step_a_ext "yaml" (by decide)
+  rw [show "a" ++ "." ++ "json" = "a.json" by decide] at hj
+  rw [show "a" ++ "." ++ "toml" = "a.toml" by decide] at ht
+  rw [show "a" ++ "." ++ "yaml" = "a.yaml" by decide] at hy
+  refine ⟨wa_chainFS_match_a_ext _ (by decide), wa_chainFS_match_a_ext _ (by decide),
+    by decide, by decide, by decide, ?_⟩
+  rw [wrapArgs_eq, mapM_R_cons, mapM_R_cons, mapM_R_cons, mapM_R_nil, hj, ht, hy]
+
+/-- **C20_failure_classes** — once `FileMatch` has resolved the argument ITSELF, EVERY error of
+    its evaluation — of layering (`mergeFileLayers`: undecodable file, missing parent layer
+    `missingFile`, bad merge `invalidType`, cycle, …) or of the output phase — aborts the
+    rewriting with that very error (the arguments before it having succeeded): no class of
+    evaluation error is mistaken for "not a bkl file". -/
+theorem C20_failure_classes (fs : FS) (cwd : Comps) (env : Vars) (pre post : List String)
+    (a : String) (wpre : List WArg) (real : Comps) (f : String) (e : Err)
+    (hpre : wrapArgs fs cwd env pre = .ok wpre)
+    (hm : fileMatch fs cwd a = .ok (real, f))
+    (hfail : mergeFileLayers fs { root := [], cwd := cwd } PState.empty real = .error e ∨
+      ∃ st, mergeFileLayers fs { root := [], cwd := cwd } PState.empty real = .ok st ∧
+        outputDocuments (st.docs.map (·.2)) env = .error e) :
+    wrapArgs fs cwd env (pre ++ a :: post) = .error e := by
+  apply wa_wrapArgs_error_at fs cwd env pre post a wpre e hpre
+  rcases hfail with hl | ⟨st, hl, ho⟩
+  · exact wa_wrapStep_error_of_layers hm hl
+  · exact wa_wrapStep_error_of_output hm hl ho
+
+/-- … and ONLY a failure of `FileMatch` on the argument itself makes it verbatim: a verbatim
+    position of the result is the argument, unchanged, and `FileMatch` rejected it. -/
+theorem C20_verbatim_only_if_nomatch (fs : FS) (cwd : Comps) (env : Vars) (args : List String)
+    (ws : List WArg) (h : wrapArgs fs cwd env args = .ok ws) (i : Nat) (a s : String)
+    (ha : args[i]? = some a) (hw : ws[i]? = some (.verbatim s)) :
+    s = a ∧ ∃ e, fileMatch fs cwd a = .error e := by
+  rw [wrapArgs_eq, mapM_R_ok_iff] at h
+  obtain ⟨w, hw', hstep⟩ := forall₂_getElem? h i ha
+  rw [hw] at hw'
+  cases hw'
+  exact (wa_wrapStep_verbatim_iff fs cwd env a s).1 hstep
+
+/-- **C20_failure_classes_examples** — the two error classes `FileMatch` itself uses, arising
+    from the EVALUATION of a resolved argument, abort (for every environment):
+    * `/w/orphan.x.yaml` exists (the argument resolves) but its parent layer `orphan` does not:
+      `missingFile`, `wrapArgs` is that error — not verbatim;
+    * `/w/a.b.yaml` (`x: 5`) on top of `/w/a.yaml` (`x: {y: 1}`): `invalidType`, an error;
+    whereas the same two classes coming from `FileMatch` on the argument (`nothere.yaml`: no
+    such layer, `missingFile`; `apply`: no supported extension, `invalidType`) mean verbatim. -/
+theorem C20_failure_classes_examples (env : Vars) :
+    (fileMatch chainFS ["w"] "orphan.x.yaml" = .ok (["w", "orphan.x.yaml"], "yaml") ∧
+      mergeFileLayers chainFS ⟨[], ["w"]⟩ PState.empty ["w", "orphan.x.yaml"] = .error .missingFile ∧
+      wrapArgs chainFS ["w"] env ["apply", "-f", "orphan.x.yaml", "a.yaml"] = .error .missingFile) ∧
+    (fileMatch wa_clashFS ["w"] "a.b.yaml" = .ok (["w", "a.b.yaml"], "yaml") ∧
+      mergeFileLayers wa_clashFS ⟨[], ["w"]⟩ PState.empty ["w", "a.b.yaml"] = .error .invalidType ∧
+      wrapArgs wa_clashFS ["w"] env ["apply", "-f", "a.b.yaml"] = .error .invalidType) ∧
+    (fileMatch chainFS ["w"] "nothere.yaml" = .error .missingFile ∧
+      fileMatch chainFS ["w"] "apply" = .error .invalidType ∧
+      wrapArgs chainFS ["w"] env ["apply", "nothere.yaml"] =
+        .ok [.verbatim "apply", .verbatim "nothere.yaml"]) := by
+  refine ⟨⟨wa_chainFS_match_orphan, wa_chainFS_layers_orphan _, ?_⟩,
+    ⟨wa_clashFS_match, wa_clashFS_layers, ?_⟩,
+    ⟨wa_chainFS_nomatch_nothere, chainFS_nomatch_apply, ?_⟩⟩
+  · exact C20_failure_classes chainFS ["w"] env ["apply", "-f"] ["a.yaml"] "orphan.x.yaml" _ _ _ _
+      (wa_chainFS_pre env) wa_chainFS_match_orphan (.inl (wa_chainFS_layers_orphan _))
+  · exact C20_failure_classes wa_clashFS ["w"] env ["apply", "-f"] [] "a.b.yaml" _ _ _ _
+      (wa_clashFS_pre env) wa_clashFS_match (.inl wa_clashFS_layers)
+  · rw [wrapArgs_eq, mapM_R_cons, mapM_R_cons, mapM_R_nil]
+    have h1 : wrapStep chainFS ["w"] env "apply" = .ok (.verbatim "apply") := by
+      unfold wrapStep; rw [chainFS_nomatch_apply]
+    have h2 : wrapStep chainFS ["w"] env "nothere.yaml" = .ok (.verbatim "nothere.yaml") := by
+      unfold wrapStep; rw [wa_chainFS_nomatch_nothere]
+    rw [h1, h2]
 
 end Bkl
